@@ -354,6 +354,21 @@ def run(ctx):
                             opnd = None
                             if sz[0] in ("iadd", "isub") and len(sz) == 3:
                                 tterm = sz[2]
+                                if tterm[0] == "leaf" and not isinstance(tterm[1], str) and tag(tterm[1]) == "call" and ix.call_target(tterm[1]) is not None:
+                                    # the signed amount comes out of a helper (e.g. `signed(side, amount)`): take the outcome that
+                                    # is consistent with this assignment of the acting side
+                                    cands = set()
+                                    for (cp, ret, m_) in (ix.outcomes(tterm[1]) or []):
+                                        feas2 = True
+                                        for (cat, co, _b2, _l2) in cp.conds:
+                                            ca = ix.inline(sym.subst(cat, m_))
+                                            if tag(ca) == "op" and payload(ca)[0] == "discr" and isinstance(co, tuple) and (em.tmp(kids(ca)[0], "side") or rst.s(kids(ca)[0]) == getattr(rst, "msgfield", lambda _n: None)("side")):
+                                                if tside is not None and ((co[0] == "variant" and tside != co[1]) or (co[0] == "other" and tside in co[1])):
+                                                    feas2 = False
+                                        if feas2:
+                                            cands.add(N(ix, rst.c(ret)))
+                                    if len(cands) == 1:
+                                        tterm = cands.pop()
                                 if tterm[0] in ("pos", "neg") and tterm[1][0] == "leaf":
                                     sgn = "+" if tterm[0] == "pos" else "-"
                                     if sz[0] == "isub":
